@@ -449,7 +449,8 @@ func rewriteTag(orig, countryCode string, withLogin bool) string {
 	if withLogin {
 		auths := store.Store.GetAuthNames()
 		for _, name := range auths {
-			auth := store.Store.GetAuthHandler(name)
+			// GetAuthNames returns logical names: resolve them as such.
+			auth := store.Store.GetLogicalAuthHandler(name)
 			if tag := auth.AsTag(orig); tag != "" {
 				return tag
 			}
